@@ -4,7 +4,8 @@ cd "$(dirname "$0")/.."
 ./setup.sh >/dev/null 2>&1
 for p in ${PROPS:-C01 C02 C03 C04 C05 C06 C07 C08 C09 C10 C11 C12 C13 C14 C15 C16 C17 C18 C19 C20}; do
   echo "=== $p $(date +%H:%M:%S)"
-  VERIF_SEED=${VERIF_SEED:-1} ./check $p --tier thorough 2>&1 | grep -v "^  classes\|^  clauses" | cut -c1-600
-  echo "=== $p rc=$? done $(date +%H:%M:%S)"
+  VERIF_SEED=${VERIF_SEED:-1} ./check $p --tier thorough > evidence/.thorough_$p.out 2>&1; rc=$?
+  grep -v "^  classes\|^  clauses" evidence/.thorough_$p.out | cut -c1-600; rm -f evidence/.thorough_$p.out
+  echo "=== $p rc=$rc done $(date +%H:%M:%S)"
   for f in evidence/replay_${p}_*.json; do [ -f "$f" ] && { echo "--- $f"; head -c 3000 "$f"; echo; }; done
 done
